@@ -15,3 +15,56 @@ package protocol
 //@   props C05 C03
 //@   nowrap
 //@   ensures ret == hdr(this) + len(this.Data)
+
+// ---------------------------------------------------------------------------
+// HTTP header codec (C10, C02). Header maps are modelled by the ghost array hdr
+// (see /verif/contracts/extern/nethttp.spec); strconv by uninterpreted functions
+// with the documented round-trip axioms (strconv.spec).
+
+//@ spec func kAuth() = ckey("Hysteria-Auth")
+//@ spec func kUDP() = ckey("Hysteria-UDP")
+//@ spec func kRX() = ckey("Hysteria-CC-RX")
+//@ spec func kPad() = ckey("Hysteria-Padding")
+//@ axiom CKEY_DISTINCT: kAuth() != kUDP() && kAuth() != kRX() && kAuth() != kPad() && kUDP() != kRX() && kUDP() != kPad() && kRX() != kPad()
+//@
+//@ spec func encRx(auto, rx) = ite(auto, "auto", fmtUint(rx))
+//@ spec func decAuto(s) = s == "auto"
+//@ spec func decRx(s) = ite(s == "auto", 0, ite(parseUintOK(s), parseUint(s), 0))
+//@ spec func decUDP(s) = parseBoolOK(s) && parseBool(s)
+//@
+//@ spec func hdrOthersKept(h, k1, k2, k3) = forallStr(k, k != k1 && k != k2 && k != k3 ==> selStr(hdr, h, k) == old(selStr(hdr, h, k)))
+//@     && forall(h2, h2 != h ==> sel(hdr, h2) == old(sel(hdr, h2)))
+
+//@ func (padding).String
+//@   props C10 C01 C02 C04
+//@   trusted
+//@   ensures len(ret) >= 0
+
+//@ func AuthRequestFromHeader
+//@   props C10 C01 C02
+//@   ensures ret.Auth == selStr(hdr, h, kAuth())
+//@   ensures parseUintOK(selStr(hdr, h, kRX())) ==> ret.Rx == parseUint(selStr(hdr, h, kRX()))
+//@   ensures !parseUintOK(selStr(hdr, h, kRX())) ==> ret.Rx == 0 || ret.Rx == 18446744073709551615
+
+//@ func AuthRequestToHeader
+//@   props C10
+//@   ensures selStr(hdr, h, kAuth()) == req.Auth
+//@   ensures selStr(hdr, h, kRX()) == fmtUint(req.Rx)
+//@   ensures hdrOthersKept(h, kAuth(), kRX(), kPad())
+//@   modifies hdr
+
+//@ func AuthResponseFromHeader
+//@   props C10
+//@   ensures ret.UDPEnabled == decUDP(selStr(hdr, h, kUDP()))
+//@   ensures ret.RxAuto == decAuto(selStr(hdr, h, kRX()))
+//@   ensures decAuto(selStr(hdr, h, kRX())) || parseUintOK(selStr(hdr, h, kRX())) ==> ret.Rx == decRx(selStr(hdr, h, kRX()))
+//@   ensures !decAuto(selStr(hdr, h, kRX())) && !parseUintOK(selStr(hdr, h, kRX())) ==> ret.Rx == 0 || ret.Rx == 18446744073709551615
+
+//@ func AuthResponseToHeader
+//@   props C10 C01 C02
+//@   ensures selStr(hdr, h, kUDP()) == fmtBool(resp.UDPEnabled)
+//@   ensures selStr(hdr, h, kRX()) == encRx(resp.RxAuto, resp.Rx)
+//@   ensures hdrOthersKept(h, kUDP(), kRX(), kPad())
+//@   modifies hdr
+
+//@ lemma RESP_RT C10: forall(rx, 0 <= rx && rx <= 18446744073709551615 ==> decRx(encRx(false, rx)) == rx && !decAuto(encRx(false, rx))) && decAuto(encRx(true, 0)) && decUDP(fmtBool(true)) && !decUDP(fmtBool(false))
